@@ -305,15 +305,16 @@ class RBFEvaluator(FuncEvaluator, XCEvalSerializable):
         if isinstance(kernel, SubsetRBF):
             if isinstance(kernel.indexes, slice):
                 i = kernel.indexes
-                start = i.start
+                start = i.start if i.start is not None else 0
                 step = i.step if i.step is not None else 1
-                stop = (
-                    i.stop
-                    if i.stop is not None
-                    else (len(kernel.length_scale) + i.start) // step
-                )
-                indexes = [i for i in range(start, stop, step)]
+                # the kernel has one length scale per selected feature
+                indexes = start + step * np.arange(len(kernel.length_scale))
+            else:
+                indexes = kernel.indexes
             indexes = np.array(indexes, dtype=np.int32)
+            if X1ctrl.shape[-1] != indexes.size:
+                # control points given with all features, as for KernelEvaluator
+                X1ctrl = X1ctrl[..., indexes]
         else:
             indexes = np.arange(len(kernel.length_scale), dtype=np.int32)
         self._X1ctrl = np.ascontiguousarray(X1ctrl)
@@ -323,12 +324,19 @@ class RBFEvaluator(FuncEvaluator, XCEvalSerializable):
         self._indexes = np.ascontiguousarray(indexes)
 
     def __call__(self, X1, res=None, dres=None):
+        X1full_shape = X1.shape
         X1 = np.ascontiguousarray(X1[..., self._indexes])
         if res is None:
             res = np.zeros(X1.shape[-2])
         elif res.shape != (X1.shape[-2],):
             raise ValueError
+        dres_full = None
         if dres is None:
+            dres = np.zeros(X1.shape)
+        elif dres.shape == X1full_shape and dres.shape != X1.shape:
+            # derivative buffer over all features: accumulate into the
+            # columns this evaluator reads
+            dres_full = dres
             dres = np.zeros(X1.shape)
         elif dres.shape != X1.shape:
             raise ValueError
@@ -346,6 +354,9 @@ class RBFEvaluator(FuncEvaluator, XCEvalSerializable):
             ctypes.c_int(self._nctrl),
             ctypes.c_int(self._nfeat),
         )
+        if dres_full is not None:
+            dres_full[..., self._indexes] += dres
+            dres = dres_full
         return res, dres
 
 
